@@ -116,6 +116,6 @@ def obligations(tier):
     modes = ['default', 'colon_required', 'segment', 'sec_within', 'desc_STR', 'S_desc_TR', 'TR_desc_S', 'copy_all'] if q else list(P.MODES)
     for mname in modes:
         obs.append(Ob(f'glue_tracts_{mname}', 'S', ob_glue, f'tract well-formedness and traceability, mode {mname}', functions=G,
-                      weight=6, timeout=7000, params={'mmax': 2 if q else 3, 'fill': P.FILL_Q if q else (0, 2, 4, 5), 'modes': [mname],
+                      weight=6, timeout=7000, params={'mmax': 2 if q else 3, 'fill': P.FILL_Q if q else (0, 4, 5), 'modes': [mname],
                                                       'cap': 2100 if q else 6500}))
     return obs
